@@ -182,6 +182,17 @@ def mon_c01(spec, G, tol=None):
                 bad.add('edge-conservation', 'edge %s->%s raw material %s period %d: shipped %s + initial pipeline %s != received %s + in pipeline %s + held at door %s'
                         % (p, n, r, t, fq(cs), fq(init), fq(ci), fq(sum(g['SP'], Z)), fq(g['IDI'])))
                 break
+    # order ledger: what a node has ordered from a supplier (its own record) = orders still travelling + orders the supplier has received
+    for (n, p, r) in edges_of(spec):
+        if p is None: continue
+        s = N[n]; coq = s['init_orders'] * s['olt']; cio = Z
+        for t in range(T):
+            coq += G[t][n]['supp'][(p, r)]['OQ']; cio += G[t][p]['cust'][(n, r)]['IO']
+            trav = sum(G[t][p]['cust'][(n, r)]['OP'], Z)
+            if not _eq(coq, trav + cio, tol):
+                bad.add('order-ledger', 'edge %s->%s raw material %s period %d: node %s has ordered %s in total (incl. initial orders) but only %s are travelling to or were received by the supplier (%s + %s)'
+                        % (p, n, r, t, n, fq(coq), fq(trav + cio), fq(trav), fq(cio)))
+                break
     # order conservation
     for n, s in N.items():
         for k in s['products']:
@@ -675,7 +686,7 @@ def gen_multi(rng, nmax=5, tmax=12):
                       demand=dem, where=('product' if pr['shared'] else rng.choice(['product', 'node'])))
         d = [prods[k]['demand'] is not None for k in nodes[i]['products']]
         if any(d) and not all(d): some_only = True
-    return dict(kind='multi%d' % levels, multi=True, ids=ids, edges=edges, T=T, nodes=nodes, prods=prods, unused=unused, twins=two_sup, some_only=some_only)
+    return dict(kind='multi%d' % levels, multi=True, ids=ids, edges=edges, T=T, nodes=nodes, prods=prods, unused=unused, twins=two_sup, some_only=some_only, rebom=rng.random() < 0.3)
 
 
 def multi_from_json(c):
@@ -704,11 +715,16 @@ def build_multi(case):
                                 if nd[i]['dis'] else None) for i in ids})
     nodes = {n.index: n for n in net.nodes}
     P = {k: SupplyChainProduct(index=k) for k in pr}
+    rebom = case.get('rebom')         # the BOM numbers are first set to other values and corrected once the products are in the network
     for k, v in pr.items():
         for r, num in v['bom'].items():
-            P[k].set_bill_of_materials(raw_material=r, num_needed=num)
+            P[k].set_bill_of_materials(raw_material=r, num_needed=(num + 1 if rebom else num))
     for i in ids:
         nodes[i].add_products([P[k] for k in nd[i]['products']])
+    if rebom:
+        for k, v in pr.items():
+            for r, num in v['bom'].items():
+                P[k].set_bill_of_materials(raw_material=r, num_needed=num)
     for i in ids:
         ks = nd[i]['products']
         def polobj(k):
@@ -1032,9 +1048,43 @@ def check_single(chk, pid, case, model=None, count=True):
     if pid == 'C05' and any(impl['recs'][t][i]['HC'] > 0 for t in range(case['T']) for i in case['ids']) and \
             any(impl['recs'][t][i]['SC'] > 0 for t in range(case['T']) for i in case['ids']) and any(impl['recs'][t][i]['ITHC'] > 0 for t in range(case['T']) for i in case['ids']):
         cov.add('cost:holding+stockout+in-transit>0')
+    if pid in ('C02', 'C05', 'C06'):
+        # the same network OBJECT simulated a second time (what run_multiple_trials does): a fresh start, so the same trajectory and the same monitors
+        import stockpyl.sim as sim
+        try:
+            with warnings.catch_warnings():
+                warnings.simplefilter('ignore')
+                tot2 = sim.simulation(impl['net'], case['T'], rand_seed=1, progress_bar=False, consistency_checks='N')
+            again = dict(recs=simlib.extract_records(impl['net'], case['T']), total=F(tot2))
+            d = simlib.compare(dict(recs=impl['recs'], total=impl['total']), again)
+            if d:
+                _fail(chk, 'second-run-on-same-network-object', 'simulating the same network object again gives a different trajectory: %d field(s) differ, first (period, node, field, first run, second run) = %s'
+                      % (len(d), jsonable(d[0])), case)
+                for sig, what in monitors(pid, spec, g_single(again['recs']), again['total'])[:3]:
+                    _fail(chk, 'second-run-on-same-network-object|' + sig, what, case)
+        except Exception as e:
+            _fail(chk, 'second-run-on-same-network-object|raises-%s' % exc_kind(e), '%s: %s' % (type(e).__name__, str(e)[:200]), case)
     if pid == 'C06' and case.get('aux'):
         c06_repro(chk, case, impl)
     return impl, cov
+
+
+def check_override(chk, pid, case):
+    try:
+        impl = simlib.run_impl(case, step_split=True, overrides=case['overrides'])
+    except Exception as e:
+        _fail(chk, 'order_quantity_override|raises-%s' % exc_kind(e), 'step(order_quantity_override=...) raises %s: %s' % (type(e).__name__, str(e)[:300]), case); return
+    spec = spec_single(case, impl['struct']); G = g_single(impl['recs'])
+    bad = list(mon_c01(spec, G)) + list(mon_c02(spec, G)) + list(mon_c03(spec, G))
+    # the overriding quantity is what is recorded as ordered (unless order-pausing disrupted)
+    for t, ov in case['overrides'].items():
+        for i, q in ov.items():
+            t_, i_ = int(t), int(i)
+            if dis_at(spec, i_, t_, 'OP'): continue
+            for (pp, r), v in G[t_][i_]['supp'].items():
+                if v['OQ'] != q: bad.append(('override-not-recorded', 'node %s period %d: override %s but order_quantity[%s] = %s' % (i_, t_, q, pp, fq(v['OQ']))))
+    for sig, what in bad[:6]:
+        _fail(chk, 'order_quantity_override|' + sig, what, case)
 
 
 def c06_repro(chk, case, impl):
@@ -1151,6 +1201,14 @@ def explore(chk, pid, n, n_multi=0, do_model=True):
         for x in cov: chk.count('branch:' + x)
         nt = impl is not None and not c['malformed'] and 'BO>0' in cov and 'pipeline>0' in cov and any(x in cov for x in SPECIFIC[pid])
         chk.case(c, nt, simlib.case_key(c))
+    if pid in ('C01', 'C03') and do_model:
+        # step-by-step operation with order_quantity_override (the documented way to drive the simulator from outside): the orders are then
+        # NOT the policy's, but conservation, non-negativity, lead times and on-order exactness must hold all the same (monitors only)
+        for j in range(30 if chk.tier == 'quick' else 300):
+            c = gen_single(pid, rng, 5, 12, directed=True); c['mode'] = 'override'
+            c['overrides'] = {str(t): {str(i): rng.choice([0, 1, 2, 5, 9]) for i in rng.sample(c['ids'], rng.randint(1, len(c['ids'])))} for t in range(c['T']) if rng.random() < 0.5}
+            check_override(chk, pid, c)
+            chk.count('stream=order_quantity_override'); chk.case(c, bool(c['overrides']))
     if n_multi and pid in MULTI_PROPS:
         nm = 0
         for j in range(n_multi):
@@ -1158,7 +1216,7 @@ def explore(chk, pid, n, n_multi=0, do_model=True):
             c = gen_multi(rng, nmax=(8 if big else 5), tmax=(30 if big else 12)); c['mode'] = 'multi'
             c = multi_from_json(json.loads(json.dumps(jsonable(c))))       # what a replay will see
             impl, cov = check_multi(chk, pid, c)
-            chk.count('multi:kind=%s' % c['kind']); chk.count('multi:two-suppliers-of-one-raw-material=%s' % c['twins']); chk.count('multi:unused-product=%s' % c['unused'])
+            chk.count('multi:kind=%s' % c['kind']); chk.count('multi:two-suppliers-of-one-raw-material=%s' % c['twins']); chk.count('multi:unused-product=%s' % c['unused']); chk.count('multi:bom-numbers-reset-after-build=%s' % bool(c.get('rebom')))
             for x in cov: chk.count('multi:branch:' + x)
             chk.case(c, impl is not None and 'BO>0' in cov and 'pipeline>0' in cov)
             nm += 1
@@ -1209,6 +1267,8 @@ def replay_property(chk, pid, rp, extra_replay=None):
             if d:
                 _fail(chk, 'sequence-of-events|trajectory-differs-from-reference|%s' % str(d[0][2]).split('[')[0], 'period %s node %s: %s is %s in the implementation but %s in the documented-sequence reference; %d field(s) differ'
                       % (d[0][0], d[0][1], d[0][2], jsonable(d[0][3]), jsonable(d[0][4]), len(d)), c)
+    elif mode == 'override':
+        check_override(chk, pid, simlib.case_from_json(c))
     elif mode == 'multi':
         check_multi(chk, pid, multi_from_json(c))
     elif mode == 'probe':
